@@ -316,7 +316,7 @@ func cmdCheck(args []string) int {
 			if f.Scenario == "" {
 				f.Scenario = units[i].id()
 			}
-			if f.Property == prop {
+			if f.Property == prop || os.Getenv("VERIF_ALL") != "" {
 				deciding = append(deciding, f)
 			} else {
 				cross = append(cross, f)
